@@ -1,7 +1,8 @@
 (** C10 — Router lifecycle: Running, RunHandlers, Stop and self-close behave as documented.
     Model: RouterLife/Model.v (message/router.go: Run, RunHandlers, handler goroutine,
     handleClose, watcher, AddHandler, Close protocol, Handler.Stop/Stopped) with the variant
-    flags [fix4] (D4 repaired) and [fix14] (D14 repaired); [rinit fix4 fix14].
+    flags [fix4] (D4 repaired), [fix14] (D14 repaired), [fix15] (D15 repaired); [rinit fix4 fix14 fix15].
+    handleClose and Close are modelled as in the merged tree (C06's D6 / D5 / D12 repairs).
     All theorems quantify over EVERY label list = every client program (any number of handlers,
     RunHandlers / Stop / Close / Run calls and threads) and every schedule. *)
 From WM Require Import Base.Prelude Base.Count RouterLife.Model RouterLife.Monitor RouterLife.Inv
@@ -9,8 +10,8 @@ From WM Require Import Base.Prelude Base.Count RouterLife.Model RouterLife.Monit
 
 (** Running() closed => each of the [run_n] handlers registered when Run's RunHandlers took
     handlersLock is started and holds its (one) subscription. *)
-Theorem C10_running_after_all_subscribed : forall (f4 f14 : bool) (ls : list label),
-  let s := run (rinit f4 f14) ls in
+Theorem C10_running_after_all_subscribed : forall (f4 f14 f15 : bool) (ls : list label),
+  let s := run (rinit f4 f14 f15) ls in
   runningCh s = true ->
   forall h, h < run_n s ->
     h < nexth s /\ h_started (hs s h) = true /\ h_startedCh (hs s h) = true /\ h_subs (hs s h) = 1.
@@ -19,8 +20,8 @@ Print Assumptions C10_running_after_all_subscribed.
 
 (** However often and from however many goroutines RunHandlers is called, a handler is
     subscribed at most once, and exactly once as soon as it is started. *)
-Theorem C10_runhandlers_idempotent : forall (f4 f14 : bool) (ls : list label) (h : hid),
-  let s := run (rinit f4 f14) ls in
+Theorem C10_runhandlers_idempotent : forall (f4 f14 f15 : bool) (ls : list label) (h : hid),
+  let s := run (rinit f4 f14 f15) ls in
   h_subs (hs s h) <= 1 /\ (h_started (hs s h) = true -> h_subs (hs s h) = 1).
 Proof. exact runhandlers_idempotent. Qed.
 Print Assumptions C10_runhandlers_idempotent.
@@ -28,8 +29,8 @@ Print Assumptions C10_runhandlers_idempotent.
 (** After the D4 repair: Started() closed => stopFn and stopped are assigned, a Stop() called
     after Started() was observed returns normally, Stopped() closes exactly when the handler
     goroutine is done. *)
-Theorem C10_started_implies_stoppable : forall (f14 : bool) (ls : list label),
-  let s := run (rinit true f14) ls in
+Theorem C10_started_implies_stoppable : forall (f14 f15 : bool) (ls : list label),
+  let s := run (rinit true f14 f15) ls in
   (forall h, h_startedCh (hs s h) = true ->
              h_started (hs s h) = true /\ h_stopFn (hs s h) = true /\ h_stoppedSet (hs s h) = true)
   /\ (forall t h r, thr s t = TStopDone h true r -> r = StopOk)
@@ -39,16 +40,16 @@ Print Assumptions C10_started_implies_stoppable.
 
 (** FALSE of the pinned code (D4): Started() is closed before stopFn / stopped are assigned. *)
 Theorem C10_started_implies_stoppable_refuted :
-  let s := run (rinit false true) d4_schedule in
+  let s := run (rinit false true true) d4_schedule in
   h_startedCh (hs s 0) = true /\ h_stoppedSet (hs s 0) = false /\ thr s 1 = TStopDone 0 true StopNilPanic
-  /\ verdict (hist (rinit false true) d4_schedule) = 4.
+  /\ verdict (hist (rinit false true true) d4_schedule) = 4.
 Proof. exact d4_refuted. Qed.
 Print Assumptions C10_started_implies_stoppable_refuted.
 
 Theorem C10_started_implies_stoppable_fixed_witness :
-  let s := run (rinit true true) d4_schedule in
+  let s := run (rinit true true true) d4_schedule in
   h_stoppedSet (hs s 0) = true /\ thr s 1 = TStopDone 0 true StopOk /\ h_cancel (hs s 0) = true
-  /\ verdict (hist (rinit true true) d4_schedule) = 0.
+  /\ verdict (hist (rinit true true true) d4_schedule) = 0.
 Proof. exact d4_fixed_witness. Qed.
 Print Assumptions C10_started_implies_stoppable_fixed_witness.
 
@@ -74,7 +75,7 @@ Print Assumptions C10_publisher_closed_only_by_sharing_handler.
     (honouring subscriber) or because the whole router is closing ... *)
 Theorem C10_subscription_ended_only_by : forall s l s' evs h,
   step s l = Some (s', evs) -> h < nexth s -> h_subOpen (hs s h) = true -> h_subOpen (hs s' h) = false ->
-  l = LSubEnd h \/ (l = LSubCtx h /\ hctx_done s h = true) \/ (l = LHC h true /\ closingCh s = true).
+  l = LSubEnd h \/ (l = LSubCtx h /\ hctx_done s h = true) \/ (exists b, l = LHC h b /\ closingCh s = true).
 Proof. exact sub_closed_only_by. Qed.
 Print Assumptions C10_subscription_ended_only_by.
 
@@ -88,11 +89,11 @@ Print Assumptions C10_running_handler_accepts.
     with handler 1 - handler 1 keeps receiving but its publish fails; handler 2 (own publisher)
     is unaffected.  The monitor accepts this history. *)
 Theorem C10_shared_publisher_witness :
-  let s := run (rinit true true) shared_schedule in
+  let s := run (rinit true true true) shared_schedule in
   h_loop (hs s 1) = LRange /\ h_subOpen (hs s 1) = true /\ h_loop (hs s 2) = LRange /\ pubClosed s 0 = true /\ pubClosed s 1 = false
-  /\ rev (hist (rinit true true) shared_schedule) = AProcessed 2 true :: AProcessed 1 false :: APubClose 0 :: AStopRet 1 StopOk ::
-       skipn 4 (rev (hist (rinit true true) shared_schedule))
-  /\ verdict (hist (rinit true true) shared_schedule) = 0.
+  /\ rev (hist (rinit true true true) shared_schedule) = AProcessed 2 true :: AProcessed 1 false :: APubClose 0 :: AStopRet 1 StopOk ::
+       skipn 4 (rev (hist (rinit true true true) shared_schedule))
+  /\ verdict (hist (rinit true true true) shared_schedule) = 0.
 Proof. exact shared_publisher_witness. Qed.
 Print Assumptions C10_shared_publisher_witness.
 
@@ -101,8 +102,8 @@ Print Assumptions C10_shared_publisher_witness.
     Wait() continues.  NOT mechanised: the full stuck-state characterisation (closedLock /
     handlersLock holders always progress, the handlerAdded signal is pending whenever the
     watcher still waits for it) and a termination measure. *)
-Theorem C10_self_close_partial : forall (f4 f14 : bool) (ls : list label),
-  let s := run (rinit f4 f14) ls in
+Theorem C10_self_close_partial : forall (f4 f14 f15 : bool) (ls : list label),
+  let s := run (rinit f4 f14 f15) ls in
   (forall h, h < nexth s -> pend (h_loop (hs s h)) = false) ->
   hwg s = 0 /\ (wat s = WWait -> step s (LWatch CStep) <> None).
 Proof. exact all_ended_wg_zero. Qed.
@@ -111,40 +112,47 @@ Print Assumptions C10_self_close_partial.
 (** FALSE of the pinned code (D14): started empty, first handler added before the watcher blocks
     in its select, handler stopped -> every handler ended, no goroutine can move, Run never returns. *)
 Theorem C10_self_close_refuted :
-  let s := run (rinit true false) d14_schedule in
+  let s := run (rinit true false true) d14_schedule in
   nexth s = 1 /\ h_loop (hs s 0) = LDone /\ hwg s = 0 /\ mainp s = RWaitClosing /\ wat s = WSelect
   /\ hadded s = 0 /\ closedF s = false /\ stuck s 3 = true /\ panicked s = false
-  /\ verdict (hist (rinit true false) d14_schedule ++ [ARunHung]) = 9.
+  /\ verdict (hist (rinit true false true) d14_schedule ++ [ARunHung]) = 9.
 Proof. exact d14_refuted. Qed.
 Print Assumptions C10_self_close_refuted.
 
 (** the same schedule on the repaired code: the signal is kept, the router closes itself, Run returns nil *)
 Theorem C10_self_close_fixed_witness :
-  let s := run (rinit true true) (d14_schedule ++ self_close_tail) in
+  let s := run (rinit true true true) (d14_schedule ++ self_close_tail) in
   mainp s = RDone true /\ wat s = WDone /\ closedCh s = true /\ hlock s = None /\ clock s = None
-  /\ verdict (hist (rinit true true) (d14_schedule ++ self_close_tail)) = 0.
+  /\ verdict (hist (rinit true true true) (d14_schedule ++ self_close_tail)) = 0.
 Proof. exact d14_fixed_witness. Qed.
 Print Assumptions C10_self_close_fixed_witness.
 
 (** Run context cancelled with one handler: the router closes itself and Run returns nil ... *)
 Theorem C10_cancel_closes_witness :
-  let s := run (rinit true true) cancel_schedule in mainp s = RDone true /\ h_stoppedCh (hs s 0) = true.
+  let s := run (rinit true true true) cancel_schedule in mainp s = RDone true /\ h_stoppedCh (hs s 0) = true.
 Proof. exact cancel_closes_witness. Qed.
 Print Assumptions C10_cancel_closes_witness.
 
-(** ... but FALSE of the code for a router WITHOUT handlers (D15, known finding): the watcher only
-    waits for handlerAdded / closedCh, nothing can move after the cancel. *)
+(** ... but FALSE of the pinned watcher for a router WITHOUT handlers (D15): it only waits for
+    handlerAdded / closedCh, nothing can move after the cancel ([fix15 = false]). *)
 Theorem C10_cancel_empty_router_refuted :
-  let s := run (rinit true true) d15_schedule in
+  let s := run (rinit true true false) d15_schedule in
   cctx s = true /\ nexth s = 0 /\ mainp s = RWaitClosing /\ wat s = WSelect /\ stuck s 2 = true
-  /\ verdict (hist (rinit true true) d15_schedule ++ [ARunHung]) = 11.
+  /\ verdict (hist (rinit true true false) d15_schedule ++ [ARunHung]) = 11.
 Proof. exact d15_refuted. Qed.
 Print Assumptions C10_cancel_empty_router_refuted.
 
+(** the same schedule after the D15 repair (the watcher's select also waits for the Run context) *)
+Theorem C10_cancel_empty_router_fixed_witness :
+  let s := run (rinit true true true) (d15_schedule ++ d15_tail) in
+  mainp s = RDone true /\ wat s = WDone /\ closedCh s = true /\ verdict (hist (rinit true true true) (d15_schedule ++ d15_tail)) = 0.
+Proof. exact d15_fixed_witness. Qed.
+Print Assumptions C10_cancel_empty_router_fixed_witness.
+
 (** A second Run returns an error: no Run call other than the first to pass the check ever
     returns nil or gets inside; isRunning is set as soon as the first one passed. *)
-Theorem C10_second_run_errors : forall (f4 f14 : bool) (ls : list label),
-  let s := run (rinit f4 f14) ls in
+Theorem C10_second_run_errors : forall (f4 f14 f15 : bool) (ls : list label),
+  let s := run (rinit f4 f14 f15) ls in
   (forall t ok, thr s t = TRunDone ok -> ok = false)
   /\ (forall t t', thr s t = TMain -> thr s t' = TMain -> t = t')
   /\ (isRunning s = true <-> mainp s <> RNone).
@@ -152,8 +160,8 @@ Proof. exact second_run_errors. Qed.
 Print Assumptions C10_second_run_errors.
 
 (** handlersWg never goes negative; handlersLock is held by exactly the thread inside its critical section. *)
-Theorem C10_no_panic_and_mutex : forall (f4 f14 : bool) (ls : list label),
-  let s := run (rinit f4 f14) ls in
+Theorem C10_no_panic_and_mutex : forall (f4 f14 f15 : bool) (ls : list label),
+  let s := run (rinit f4 f14 f15) ls in
   panicked s = false
   /\ (forall t t', thr_hl (thr s t) = true -> thr_hl (thr s t') = true -> t = t')
   /\ (forall t, thr_hl (thr s t) = true -> main_hl (mainp s) = false /\ wat_hl (wat s) = false)
@@ -163,9 +171,9 @@ Print Assumptions C10_no_panic_and_mutex.
 
 (** the hypotheses are satisfiable and the behaviour is non-trivial *)
 Example C10_running_reachable :
-  let s := run (rinit true true) (firstn 18 shared_schedule) in
+  let s := run (rinit true true true) (firstn 18 shared_schedule) in
   runningCh s = true /\ run_n s = 3 /\ map (fun h => h_subs (hs s h)) [0; 1; 2] = [1; 1; 1].
 Proof. vm_compute. repeat split. Qed.
 Example C10_second_run_example :
-  let s := run (rinit true true) (firstn 5 shared_schedule ++ [LRunCall 7; LT 7 CStep]) in thr s 7 = TRunDone false.
+  let s := run (rinit true true true) (firstn 5 shared_schedule ++ [LRunCall 7; LT 7 CStep]) in thr s 7 = TRunDone false.
 Proof. vm_compute. reflexivity. Qed.
